@@ -235,10 +235,22 @@ class BodyParser:
         return a
 
     def and_expr(self, ns):
-        a = self.unary(ns)
+        a = self.cmp_expr(ns)
         while self.peek() == "&&":
             self.eat()
-            a = ("and", a, self.unary(ns))
+            a = ("and", a, self.cmp_expr(ns))
+        return a
+
+    def cmp_expr(self, ns):
+        a = self.unary(ns)
+        if self.peek() in ("==", "!="):
+            op = self.eat()
+            b = self.unary(ns)
+            a = ("eq", a, b) if op == "==" else ("not", ("eq", a, b))
+        elif self.peek() in ("<", ">", "<=", ">="):
+            op = self.eat()
+            b = self.unary(ns)
+            a = ("cmp", op, a, b)
         return a
 
     def unary(self, ns):
